@@ -90,7 +90,15 @@ func tohex(b []byte) string {
 }
 
 // ---------- running a case on a real backend ----------
+// wrapper modes for indexed batches: the two thin wrappers of package db must be transparent
+const (
+	wrapNone   = iota
+	wrapSync   // db.NewSyncBatch(indexed batch): every operation
+	wrapBuffer // db.NewBufferBatch(indexed batch): Put/Delete/Get/Write/Close only (the rest panics by design)
+)
+
 type session struct {
+	wrap    int
 	d       db.KeyValueStore
 	batches []db.Batch
 	indexed []bool
@@ -178,7 +186,14 @@ func (s *session) step(o Op) (out string) {
 		return hasOut(s.d, unhex(o.A))
 	case "newbatch":
 		if o.Flag {
-			s.batches = append(s.batches, s.d.NewIndexedBatch())
+			switch s.wrap {
+			case wrapSync:
+				s.batches = append(s.batches, db.NewSyncBatch(s.d.NewIndexedBatch()))
+			case wrapBuffer:
+				s.batches = append(s.batches, db.NewBufferBatch(s.d.NewIndexedBatch()))
+			default:
+				s.batches = append(s.batches, s.d.NewIndexedBatch())
+			}
 		} else {
 			s.batches = append(s.batches, s.d.NewBatch())
 		}
@@ -295,8 +310,45 @@ func wipe(d db.KeyValueStore) {
 	}
 }
 
-func runOn(d db.KeyValueStore, ops []Op) string {
-	s := &session{d: d}
+func runOn(d db.KeyValueStore, ops []Op) string { return runWrapped(d, ops, wrapNone) }
+
+// bufferOK: the case uses its indexed batches only through the operations db.BufferBatch supports
+// (point writes, Get, Write, Close; nothing after Write/Close) - then the wrapper must be transparent
+func bufferOK(ops []Op) bool {
+	var indexed, done []bool
+	any := false
+	for _, o := range ops {
+		switch o.K {
+		case "newbatch":
+			indexed = append(indexed, o.Flag)
+			done = append(done, false)
+		case "bw", "bget", "bhas", "bsize", "bwrite", "bclose":
+			if o.H < 0 || o.H >= len(indexed) {
+				return false
+			}
+			if !indexed[o.H] {
+				continue
+			}
+			if done[o.H] || o.K == "bhas" || o.K == "bsize" || (o.K == "bw" && strings.HasPrefix(o.W, "delrange")) {
+				return false
+			}
+			if o.K == "bwrite" || o.K == "bclose" {
+				done[o.H] = true
+			}
+			any = true
+		case "newiter":
+			if o.Src == "b" {
+				if o.H < 0 || o.H >= len(indexed) || indexed[o.H] {
+					return false
+				}
+			}
+		}
+	}
+	return any
+}
+
+func runWrapped(d db.KeyValueStore, ops []Op, wrap int) string {
+	s := &session{d: d, wrap: wrap}
 	outs := make([]string, len(ops))
 	for i, o := range ops {
 		outs[i] = s.step(o)
@@ -616,6 +668,24 @@ func evalCase(or *hx.Oracle, bk *backends, ops []Op) (v *verdict, shape string, 
 		outs["pebble"] = runOn(bk.p1, ops)
 		wipe(bk.p1)
 	}
+	outs["memory+syncbatch"] = runWrapped(bk.mem, ops, wrapSync)
+	wipe(bk.mem)
+	outs["pebblev2+syncbatch"] = runWrapped(bk.p2, ops, wrapSync)
+	wipe(bk.p2)
+	if shape == "none" && bufferOK(ops) {
+		outs["memory+bufferbatch"] = runWrapped(bk.mem, ops, wrapBuffer)
+		wipe(bk.mem)
+		outs["pebblev2+bufferbatch"] = runWrapped(bk.p2, ops, wrapBuffer)
+		wipe(bk.p2)
+	}
+	for _, b := range []string{"memory", "pebblev2"} {
+		if outs[b+"+syncbatch"] != outs[b] {
+			return &verdict{"syncbatch-not-transparent:" + b, "indexed batches wrapped in db.SyncBatch answer differently from the bare indexed batch on " + b}, shape, outs
+		}
+		if o, ok := outs[b+"+bufferbatch"]; ok && o != outs[b] {
+			return &verdict{"bufferbatch-not-transparent:" + b, "indexed batches wrapped in db.BufferBatch (point writes, Get, Write, Close only) answer differently from the bare indexed batch on " + b}, shape, outs
+		}
+	}
 	switch {
 	case outs["pebblev2"] != spec:
 		return &verdict{"pebblev2-vs-contract", "db/pebblev2 differs from the contract (Spec)"}, shape, outs
@@ -737,6 +807,9 @@ func main() {
 		ops := genCase(r.Fork(uint64(i)), 6+r.Intn(30), bias)
 		v, shape, outs := evalCase(or, bk, ops)
 		shapes[shape]++
+		if _, ok := outs["memory+bufferbatch"]; ok {
+			c.Hist["cases_also_run_through_BufferBatch"]++
+		}
 		for _, o := range ops {
 			c.Hist[o.K]++
 		}
@@ -756,7 +829,7 @@ func main() {
 		}
 	}
 	c.Extra["cases_by_first_excluded_shape"] = shapes
-	c.Extra["backends"] = []string{"contract(Spec, extracted)", "memory model (extracted)", "db/memory", "db/pebblev2", "db/pebble"}
+	c.Extra["backends"] = []string{"contract(Spec, extracted)", "memory model (extracted)", "db/memory", "db/pebblev2", "db/pebble", "db/memory and db/pebblev2 with indexed batches wrapped in db.SyncBatch (every case) and db.BufferBatch (cases using only its supported operations)"}
 	c.Finish("operation sequences over keys from alphabet {00,01,fe,ff} (len<=3, biased to 0xff/0x00 so that 0xff-terminated prefixes, empty keys/values and keys extending keys occur); " +
 		"non-trivial = contains an iterator, batch commit, snapshot, helper or range delete; distinct by the full op sequence")
 }
